@@ -555,7 +555,8 @@ def abs_c08(w, sess, frames, t0, hs_len, res):
         if name in seen:
             continue
         seen.add(name)
-        evs.append({"e": "Wire", "L": L, "dom": dom, "name": list(name)})
+        kind = proto.classify_query(m.qd[0][0], sess.domain).get("kind", "unknown") if m.qd else "unknown"
+        evs.append({"e": "Wire", "L": L, "dom": dom, "name": list(name), "kind": kind})
     res["stats"]["wire_names"] = len(evs)
     return evs
 
